@@ -17,6 +17,18 @@ def make_pool(rng, kbpk):
             g = tr31.wrap(kbpk, t.impl_header(c), c["key"])
             genuine.append(g)
             pool.setdefault("unwrap_ok_" + v, []).append(("U", g))
+    # blocks from the independent reference using encoding freedoms psec itself never uses: pad block with a non-zero
+    # filler, in extended form, in front of / between the data blocks, lower-case hex, extended lengths everywhere
+    for v in "ABCD":
+        for choice in ({"pb_fill": "F"}, {"pb_fill": "x", "pb_size": 1}, {"pb_ext": True, "pb_fill": "~"}, {"pb_pos": "first", "pb_fill": "9"},
+                       {"pb_pos": "middle", "lower": True}, {"ext_all": True, "ll": 3}):
+            c = t.gen_case(rng, version=v, profile="few", keylen=rng.choice([8, 16, 24]), mask=None)
+            while len(c["blocks"]) < 2 or sum(len(b[1]) + 4 for b in c["blocks"]) % t.BS[v] == 0:
+                c = t.gen_case(rng, version=v, profile="few", keylen=16, mask=None)
+            kb = t.reference_block(rng, c, kbpk=kbpk, **choice)
+            if kb:
+                pool.setdefault("unwrap_foreign_" + v, []).append(("U", kb))
+                pool.setdefault("load_foreign", []).append(("L", kb[: tr31.Header().load(kb)]))
     g = genuine[0]
     hl = tr31.Header().load(g)
     g2 = genuine[3]
